@@ -180,6 +180,14 @@ class EngineE:
                     vals[js[1]] = -1.0
                     for j in js[2:]:
                         vals[j] = 0.0
+            if g.random() < 0.1:
+                # whole-number values held in a narrow integer type; groups whose sum leaves the range of that type
+                vt = g.choice(["int8", "uint8", "int16", "int32"])
+                hi = {"int8": 120, "uint8": 250, "int16": 30000, "int32": 2_000_000_000}[vt]
+                lo = 1 if vt == "uint8" else -hi
+                vals = [float(g.choice([hi, hi - 1, hi // 2, 3, 1] + ([lo, -3] if lo < 0 else []))) for _ in rows]
+                if vt in ("int8", "uint8") or len(rows) <= 4:
+                    step["vals_dtype"] = vt
             step["subs"] = rows
             step["vals"] = vals
             if narrow:
@@ -187,6 +195,8 @@ class EngineE:
             else:
                 step["shape"] = shape if huge else g.choice([None, shape, [s + g.randint(0, 1) for s in shape]])
             step["reducer"] = g.choice(["sum", "sum", "default", "min", "max", "mean", "np.max", "np.sum", "prod", "first", "last", "callable_first", "callable_last"])
+            if step.get("vals_dtype"):
+                step["reducer"] = g.choice(["sum", "sum", "default", "default", "max", "min", "np.sum"])
         else:  # k_from_function
             step["shape"] = self._shape(g)
             step["rank"] = g.randint(1, 3)
@@ -522,6 +532,9 @@ class EngineE:
             kw["function_handle"] = {"np.max": np.max, "np.sum": np.sum, "callable_first": lambda v: v[0], "callable_last": lambda v: v[-1]}.get(red, red)
         subs = np.array(rows, dtype=step.get("subs_dtype", "int64")).reshape(len(rows), nd)
         v = np.array(vals, dtype=float).reshape(-1, 1)
+        if step.get("vals_dtype"):
+            v = v.astype(step["vals_dtype"])
+            res.bump("probe:aggregator_values_in_a_narrow_integer_type")
         subs0, v0 = subs.copy(), v.copy()
         if max(shape) > 10**4:
             res.bump("probe:huge_declared_shape")
